@@ -132,6 +132,17 @@ func (hs *hostileState) throttled(client string, broker int64, from, to time.Dur
 	return sum
 }
 
+// creditBroker: which broker's throttles count for a call. Normally the
+// call's own; in the plans with minute-long throttles any broker's, because a
+// call to one broker can wait for a metadata request that sleeps out another
+// broker's throttle.
+func (hs *hostileState) creditBroker(b int64) int64 {
+	if hs.s.P.Knob("long_throttle", 0) != 0 {
+		return -1
+	}
+	return b
+}
+
 func hostileReq(kind int64, marker string) kmsg.Request {
 	switch kind {
 	case 0:
@@ -444,7 +455,7 @@ func scenHostile(s *Sim) {
 	var never []string
 	for _, c := range hs.calls {
 		if !c.done {
-			if hs.throttled(c.client, c.broker, c.invoke, s.Now()) > 0 {
+			if hs.throttled(c.client, hs.creditBroker(c.broker), c.invoke, s.Now()) > 0 {
 				s.Probe("call_outstanding_while_throttled")
 				continue
 			}
@@ -482,7 +493,7 @@ func scenHostile(s *Sim) {
 		} else if d > maxRetry {
 			maxRetry = d
 		}
-		if th := hs.throttled(c.client, c.broker, c.invoke, c.ret); th > 0 {
+		if th := hs.throttled(c.client, hs.creditBroker(c.broker), c.invoke, c.ret); th > 0 {
 			bound += th
 			s.Probe("call_throttled")
 		}
@@ -497,7 +508,7 @@ func scenHostile(s *Sim) {
 		// (a request whose connection is still being set up when its
 		// context ends is released when the ApiVersions read returns or
 		// times out: connection set-up does not watch request contexts)
-		if end > 0 && c.ret > end+2*attempt+5*time.Second+hs.throttled(c.client, c.broker, c.invoke, c.ret) {
+		if end > 0 && c.ret > end+2*attempt+5*time.Second+hs.throttled(c.client, hs.creditBroker(c.broker), c.invoke, c.ret) {
 			s.Violf("C22/cancel/slow", "call %s returned %v after its context ended", c.marker, c.ret-end)
 		}
 		if end > 0 && c.ret >= end && c.err != nil {
